@@ -22,14 +22,17 @@ var recRT = kit.NewRecorder("C09", "realtime",
 
 type rtScenario struct {
 	typ       act.SupervisorType
-	intensity int
+	intensity int // effective values (what the oracle uses)
 	period    int
 	children  int
 	gaps      []int64
+	// what is written into the spec when it differs from the effective value: 0 = left unset,
+	// the documented default (5 restarts / 5 seconds) applies
+	unsetIntensity, unsetPeriod bool
 }
 
 func (s rtScenario) String() string {
-	return fmt.Sprintf("type=%d I=%d P=%d n=%d gaps=%v", s.typ, s.intensity, s.period, s.children, s.gaps)
+	return fmt.Sprintf("type=%d I=%d P=%d n=%d gaps=%v unsetI=%v unsetP=%v", s.typ, s.intensity, s.period, s.children, s.gaps, s.unsetIntensity, s.unsetPeriod)
 }
 
 func runRT(sc rtScenario) (nontriv bool, problem string, inconclusive bool) {
@@ -44,12 +47,19 @@ func runRT(sc rtScenario) (nontriv bool, problem string, inconclusive bool) {
 		children = append(children, act.SupervisorChildSpec{Name: gen.Atom(fmt.Sprintf("rt%d", i)),
 			Factory: kit.Factory(&kit.ActorConfig{Label: fmt.Sprintf("rt%d", i), Probe: probe, Quiet: true})})
 	}
+	specI, specP := uint16(sc.intensity), uint16(sc.period)
+	if sc.unsetIntensity {
+		specI = 0
+	}
+	if sc.unsetPeriod {
+		specP = 0
+	}
 	var supReason error
 	supDead := make(chan struct{})
 	sup, err := node.Spawn(kit.SupFactory(&kit.SupConfig{Label: "sup", Probe: probe,
 		Spec: func(args ...any) (act.SupervisorSpec, error) {
 			return act.SupervisorSpec{Type: sc.typ, Children: children, DisableAutoShutdown: true,
-				Restart: act.SupervisorRestart{Strategy: act.SupervisorStrategyPermanent, Intensity: uint16(sc.intensity), Period: uint16(sc.period)}}, nil
+				Restart: act.SupervisorRestart{Strategy: act.SupervisorStrategyPermanent, Intensity: specI, Period: specP}}, nil
 		},
 		OnTerm: func(s *kit.Sup, reason error) { supReason = reason; close(supDead) }}), gen.ProcessOptions{})
 	if err != nil {
@@ -200,5 +210,41 @@ func TestRealTime(t *testing.T) {
 		if len(problems) > 0 {
 			t.Fatalf("%s", strings.Join(problems, "\n"))
 		}
+	})
+}
+
+
+var recBurst = kit.NewRecorder("C09", "real-bursts",
+	"real supervisors of all four types with Intensity 1-6 and Period 1-10 s, or with one or both of them left unset (the defaults, 5 restarts within 5 seconds, apply to each one separately), 1-2 children, hit by a burst of Intensity+2 kills 0-10 ms apart (no sleeping involved, so this part runs in the quick tier); "+
+		"oracle: the supervisor restarts the child for failures 1..Intensity and gives up at failure Intensity+1 with ErrSupervisorRestartsExceeded, all children gone; "+
+		"non-trivial = every case reaches the limit; distinct by scenario")
+
+func TestRealBursts(t *testing.T) {
+	rapid.Check(t, func(t *rapid.T) {
+		sc := rtScenario{
+			typ:       rapid.SampledFrom([]act.SupervisorType{act.SupervisorTypeOneForOne, act.SupervisorTypeAllForOne, act.SupervisorTypeRestForOne, act.SupervisorTypeSimpleOneForOne}).Draw(t, "type"),
+			intensity: rapid.IntRange(1, 6).Draw(t, "intensity"),
+			period:    rapid.IntRange(1, 10).Draw(t, "period"),
+			children:  rapid.IntRange(1, 2).Draw(t, "children"),
+		}
+		switch rapid.IntRange(0, 3).Draw(t, "unset") {
+		case 1:
+			sc.unsetIntensity, sc.intensity = true, 5
+		case 2:
+			sc.unsetPeriod, sc.period = true, 5
+		case 3:
+			sc.unsetIntensity, sc.unsetPeriod, sc.intensity, sc.period = true, true, 5, 5
+		}
+		for k := 0; k < sc.intensity+2; k++ {
+			sc.gaps = append(sc.gaps, int64(rapid.IntRange(0, 10).Draw(t, "gap_ms")))
+		}
+		_, problem, inconclusive := runRT(sc)
+		if inconclusive {
+			t.Skip(problem)
+		}
+		if problem != "" {
+			t.Fatalf("%s: %s", sc, problem)
+		}
+		recBurst.Case(true, sc.String())
 	})
 }
